@@ -125,6 +125,11 @@ func cmdReplay(args []string) {
 			if s == "refl" && strings.Contains(c.Doc.Text(gq.Layouts[0]), "code") {
 				passes = append(passes, pass{s, si, int(gq.BindRegisterLate)})
 			}
+			// a union as the condition of a fragment: also in the world with a past of refused loads (every union was
+			// offered every other object type there)
+			if s == "refl" && (strings.Contains(c.Doc.Text(gq.Layouts[0]), "on Any") || strings.Contains(c.Doc.Text(gq.Layouts[0]), "on Solo")) {
+				passes = append(passes, pass{s, si, int(gq.BindGoDirFull)})
+			}
 		}
 		for _, ps := range passes {
 			si, s := ps.si, ps.s
